@@ -7,11 +7,14 @@ package state
 //   * BlockExecutor.CreateProposalBlock builds the block from a (stub) mempool and evidence pool
 //     (CPropose: header vs make_block, size vs the size model and MaxBytes, validateBlock accepts),
 //   * the block and each single perturbation of it are given to validateBlock (CValidate),
-//   * updateState computes the next state on two replicas (CUpdate).
+//   * updateState computes the next state on two replicas (CUpdate),
+//   * two nodes whose applications answer DeliverTx differently apply the block; the second
+//     node validates the block the first one proposes next (CResults).
 
 import (
 	"bytes"
 	"fmt"
+	"math"
 	"strings"
 	"testing"
 	"time"
@@ -33,7 +36,10 @@ type c06Chain struct {
 	st     State
 	lastID types.BlockID
 	// directed scenario: 0 random, 1 validator set shrinks while the mempool is full,
-	// 2 one of four equal validators stamps its precommit in the past
+	// 2 one of four equal validators stamps its precommit in the past,
+	// 3 everything as large as the types allow: many validators all signing with timestamps of
+	// maximal encoded size, 50-byte chain id, heights/round/app version/part count near the top
+	// of their ranges, a 182-byte application hash, a mempool filled to the byte
 	scenario int
 }
 
@@ -56,7 +62,12 @@ func c06Genesis(r *vg.Rand, scenario int) *c06Chain {
 	if scenario == 2 {
 		n = 4
 	}
-	keys := c06Keys(r, 10)
+	nkeys := 10
+	if scenario == 3 {
+		n = vg.Scale(25, 90) + r.Intn(vg.Scale(30, 60))
+		nkeys = n + 1
+	}
+	keys := c06Keys(r, nkeys)
 	gvs := make([]types.GenesisValidator, n)
 	for i := 0; i < n; i++ {
 		p := c06Power(r)
@@ -87,13 +98,28 @@ func c06Genesis(r *vg.Rand, scenario int) *c06Chain {
 	if r.Chance(50) {
 		appHash = r.Bytes(32)
 	}
+	genTime := time.Unix(1600000000+r.Int63n(100000000), r.Int63n(1000000000)).UTC()
+	if scenario == 3 {
+		chain = string(bytes.Repeat([]byte("m"), types.MaxChainIDLen-8)) + fmt.Sprintf("%08x", r.Uint64()&0xffffffff)
+		initial = 1<<62 + r.Int63n(1<<61)
+		// room for header, commit and evidence, and a few thousand bytes of transactions
+		params.Block.MaxBytes = types.MaxOverheadForBlock + types.MaxHeaderBytes + types.MaxCommitBytes(n) + 2500 + 1500 + r.Int63n(6000)
+		params.Evidence.MaxBytes = 2500
+		params.Version.AppVersion = math.MaxUint64
+		appHash = r.Bytes(182)
+		// before 1970: the seconds of a timestamp are negative and take ten bytes
+		genTime = time.Unix(-1000000000-r.Int63n(1000000000), 268435456+r.Int63n(731564543)).UTC()
+	}
 	gd := &types.GenesisDoc{
-		GenesisTime: time.Unix(1600000000+r.Int63n(100000000), r.Int63n(1000000000)).UTC(), ChainID: chain,
+		GenesisTime: genTime, ChainID: chain,
 		InitialHeight: initial, ConsensusParams: params, Validators: gvs, AppHash: appHash,
 	}
 	st, err := MakeGenesisState(gd)
 	if err != nil {
 		panic(err)
+	}
+	if scenario == 3 {
+		st.Version.Consensus.App = math.MaxUint64
 	}
 	return &c06Chain{r: r, keys: keys, st: st, scenario: scenario}
 }
@@ -115,6 +141,9 @@ func (c *c06Chain) makeCommit(height int64) *c06Commit {
 	}
 	vals := st.LastValidators
 	round := int32(r.Intn(3))
+	if c.scenario == 3 {
+		round = math.MaxInt32 - round
+	}
 	cc := &c06Commit{chain: st.ChainID, h: height - 1, r: round, bid: st.LastBlockID}
 	n := len(vals.Validators)
 	kinds := make([]byte, n) // 'B', 'N', 'A'
@@ -130,6 +159,12 @@ func (c *c06Chain) makeCommit(height int64) *c06Commit {
 				kinds[i] = 'N'
 			default:
 				kinds[i] = 'A'
+			}
+		}
+		if c.scenario == 3 {
+			forBlock = total
+			for i := range kinds {
+				kinds[i] = 'B'
 			}
 		}
 		if c.scenario == 2 {
@@ -173,6 +208,10 @@ func (c *c06Chain) makeCommit(height int64) *c06Commit {
 		if i == past {
 			ts = st.LastBlockTime.Add(-time.Duration(r.Int63n(1000000)))
 		}
+		if c.scenario == 3 {
+			// a later second, nanoseconds that need five varint bytes
+			ts = time.Unix(st.LastBlockTime.Unix()+1+r.Int63n(5), 268435456+r.Int63n(731564543)).UTC()
+		}
 		k := c06KeyOf(c.keys, v.Address)
 		vote := &types.Vote{Type: tmproto.PrecommitType, Height: height - 1, Round: round, Timestamp: ts,
 			ValidatorAddress: v.Address, ValidatorIndex: int32(i)}
@@ -213,6 +252,49 @@ func c06Pool(r *vg.Rand, maxBytes int64, full bool) types.Txs {
 		}
 		txs = append(txs, types.Tx(r.Bytes(l)))
 		sum += int64(l) + 2
+	}
+	return txs
+}
+
+// proto size of one transaction inside Data (types.ComputeProtoSizeForTxs of a single tx)
+func c06TxProtoSize(l int64) int64 {
+	return types.ComputeProtoSizeForTxs([]types.Tx{make(types.Tx, l)})
+}
+
+// a mempool whose head fills the byte budget [budget] exactly (when that is possible), followed
+// by transactions that do not fit any more
+func c06ExactPool(r *vg.Rand, budget int64) types.Txs {
+	var lens []int64
+	rem := budget
+	for rem > 2100 {
+		l := int64(100 + r.Intn(1900))
+		lens = append(lens, l)
+		rem -= c06TxProtoSize(l)
+	}
+	single := func(want int64) int64 {
+		for l := want - 5; l <= want-2; l++ {
+			if l >= 0 && c06TxProtoSize(l) == want {
+				return l
+			}
+		}
+		return -1
+	}
+	switch l := single(rem); {
+	case l >= 0:
+		lens = append(lens, l)
+	case rem >= 4 && single(rem-2) >= 0:
+		lens = append(lens, 0, single(rem-2)) // an empty transaction takes two bytes
+	case rem >= 2:
+		l := rem - 5 // cannot be hit exactly: stay below
+		if l < 0 {
+			l = 0
+		}
+		lens = append(lens, l)
+	}
+	lens = append(lens, int64(r.Intn(30)), int64(200+r.Intn(300)), int64(r.Intn(30)))
+	txs := make(types.Txs, len(lens))
+	for i, l := range lens {
+		txs[i] = types.Tx(r.Bytes(int(l)))
 	}
 	return txs
 }
@@ -675,6 +757,10 @@ func (c *c06Chain) genStep(height int64, ntxs int) c06Step {
 			}
 		}
 	case c.scenario == 2:
+	case c.scenario == 3:
+		if r.Bool() {
+			up(*c06KeyOf(c.keys, nv.Validators[r.Intn(nv.Size())].Address), c06Power(r))
+		}
 	case x < 3:
 		// add / change
 		k := c.keys[r.Intn(9)]
@@ -740,6 +826,9 @@ func (c *c06Chain) genStep(height int64, ntxs int) c06Step {
 	default:
 		s.appHash = r.Bytes(32)
 	}
+	if c.scenario == 3 {
+		s.appHash = r.Bytes(182)
+	}
 	return s
 }
 
@@ -791,10 +880,292 @@ func c06Apply(st State, id types.BlockID, h *types.Header, resp *tmstate.ABCIRes
 	return ns, 0, ups
 }
 
+// ---------------------------------------------------------------- DeliverTx responses of two nodes
+
+func c06Gas(r *vg.Rand) int64 {
+	switch r.Intn(6) {
+	case 0:
+		return 0
+	case 1:
+		return -1 - r.Int63n(10)
+	case 2:
+		return math.MaxInt64
+	case 3:
+		return math.MinInt64
+	default:
+		return r.Int63n(1000000)
+	}
+}
+
+func c06Events(r *vg.Rand) []abci.Event {
+	evs := make([]abci.Event, 1+r.Intn(2))
+	for i := range evs {
+		evs[i].Type = fmt.Sprintf("ev%d", r.Intn(10))
+		for j := r.Intn(3); j > 0; j-- {
+			evs[i].Attributes = append(evs[i].Attributes, abci.EventAttribute{Key: r.Bytes(1 + r.Intn(3)), Value: r.Bytes(r.Intn(4)), Index: r.Bool()})
+		}
+	}
+	return evs
+}
+
+func c06GenResp(r *vg.Rand) *abci.ResponseDeliverTx {
+	d := &abci.ResponseDeliverTx{}
+	switch r.Intn(4) {
+	case 0:
+	case 1:
+		d.Code = uint32(1 + r.Intn(5))
+	case 2:
+		d.Code = math.MaxUint32
+	default:
+		d.Code = uint32(r.Uint64())
+	}
+	switch x := r.Intn(10); {
+	case x < 2:
+	case x < 3:
+		d.Data = r.Bytes(128 + r.Intn(3)) // length needs two bytes
+	default:
+		d.Data = r.Bytes(1 + r.Intn(6))
+	}
+	d.GasWanted, d.GasUsed = c06Gas(r), c06Gas(r)
+	if r.Chance(60) {
+		d.Log = fmt.Sprintf("log%d", r.Intn(1000))
+	}
+	if r.Chance(30) {
+		d.Info = fmt.Sprintf("info%d", r.Intn(10))
+	}
+	if r.Chance(40) {
+		d.Events = c06Events(r)
+	}
+	if r.Chance(30) {
+		d.Codespace = []string{"sdk", "app"}[r.Intn(2)]
+	}
+	return d
+}
+
+func c06CloneResps(rs []*abci.ResponseDeliverTx) []*abci.ResponseDeliverTx {
+	out := make([]*abci.ResponseDeliverTx, len(rs))
+	for i, d := range rs {
+		bz, err := d.Marshal()
+		if err != nil {
+			panic(err)
+		}
+		out[i] = new(abci.ResponseDeliverTx)
+		if err := out[i].Unmarshal(bz); err != nil {
+			panic(err)
+		}
+	}
+	return out
+}
+
+// the responses of a second node: the same transactions, answered by an application that differs
+// from the first one either in fields it is free to fill as it likes (Log, Info, Events,
+// Codespace) or in one field that has to be deterministic (Code, Data, GasWanted, GasUsed)
+func c06MutResps(r *vg.Rand, ra []*abci.ResponseDeliverTx, det bool) ([]*abci.ResponseDeliverTx, string) {
+	rb := c06CloneResps(ra)
+	i := r.Intn(len(rb))
+	d := rb[i]
+	if !det {
+		switch r.Intn(8) {
+		case 0:
+			d.Log += "!"
+			return rb, "log"
+		case 1:
+			d.Info += "?"
+			return rb, "info"
+		case 2:
+			d.Events = append(d.Events, c06Events(r)...)
+			return rb, "events-added"
+		case 3:
+			d.Codespace += "x"
+			return rb, "codespace"
+		case 4:
+			for _, e := range rb {
+				e.Log, e.Info, e.Events, e.Codespace = "", "", nil, ""
+			}
+			for _, e := range ra {
+				if e.Log == "" {
+					e.Log = "ok"
+				}
+			}
+			return rb, "nothing-but-the-deterministic-fields"
+		case 5:
+			for k, e := range rb {
+				e.Log, e.Info, e.Codespace = fmt.Sprintf("node B tx %d", k), "B", "nodeb"
+				e.Events = c06Events(r)
+			}
+			return rb, "all-four-on-every-response"
+		case 6:
+			if len(d.Events) > 0 && len(d.Events[0].Attributes) > 0 {
+				d.Events[0].Attributes[0].Index = !d.Events[0].Attributes[0].Index
+				return rb, "event-attribute-index"
+			}
+			d.Events = c06Events(r)
+			return rb, "events-replaced"
+		default:
+			d.Log = ""
+			if ra[i].Log == "" {
+				d.Log = "x"
+			}
+			return rb, "log-emptiness"
+		}
+	}
+	switch r.Intn(11) {
+	case 0:
+		d.Code++
+		return rb, "code+1"
+	case 1:
+		if d.Code == 0 {
+			d.Code = 1
+		} else {
+			d.Code = 0
+		}
+		return rb, "code-zero-nonzero"
+	case 2:
+		d.Data = c06Flip(d.Data)
+		return rb, "data-flip"
+	case 3:
+		d.Data = append(append([]byte(nil), d.Data...), 0)
+		return rb, "data-append-zero-byte"
+	case 4:
+		d.GasWanted++
+		if d.GasWanted == math.MinInt64 {
+			d.GasWanted = 0
+		}
+		return rb, "gas-wanted+1"
+	case 5:
+		d.GasUsed--
+		if d.GasUsed == math.MaxInt64 {
+			d.GasUsed = 0
+		}
+		return rb, "gas-used-1"
+	case 6:
+		if d.GasWanted != d.GasUsed {
+			d.GasWanted, d.GasUsed = d.GasUsed, d.GasWanted
+			return rb, "gas-wanted<->gas-used"
+		}
+		d.GasUsed++
+		if d.GasUsed == math.MinInt64 {
+			d.GasUsed = 0
+		}
+		return rb, "gas-used+1"
+	case 7:
+		return rb[:len(rb)-1], "last-response-dropped"
+	case 8:
+		return append(rb, &abci.ResponseDeliverTx{}), "zero-response-appended"
+	case 9:
+		// the log text moves into Data
+		d.Data = append(append([]byte(nil), d.Data...), []byte(d.Log+"#")...)
+		d.Log = ""
+		return rb, "log-moved-into-data"
+	default:
+		j := (i + 1) % len(rb)
+		ea, _ := types.NewResults(rb[i : i+1])[0].Marshal()
+		eb, _ := types.NewResults(rb[j : j+1])[0].Marshal()
+		if !bytes.Equal(ea, eb) {
+			rb[i], rb[j] = rb[j], rb[i]
+			return rb, "two-responses-swapped"
+		}
+		d.Code ^= 1
+		return rb, "code-flip"
+	}
+}
+
+func c06RespL(rs []*abci.ResponseDeliverTx) string {
+	xs := make([]string, len(rs))
+	for i, d := range rs {
+		evs := make([]string, len(d.Events))
+		for j := range d.Events {
+			bz, err := d.Events[j].Marshal()
+			if err != nil {
+				panic(err)
+			}
+			evs[j] = vg.Hx(bz)
+		}
+		xs[i] = vg.Tup(vg.Z(int64(d.Code)), vg.Hx(d.Data), vg.Hx([]byte(d.Log)), vg.Hx([]byte(d.Info)),
+			vg.Z(d.GasWanted), vg.Z(d.GasUsed), vg.L(evs), vg.Hx([]byte(d.Codespace)))
+	}
+	return vg.L(xs)
+}
+
+func c06Leaves(rs []*abci.ResponseDeliverTx) (out []string) {
+	defer func() {
+		if recover() != nil {
+			out = []string{vg.Hx([]byte("panic"))}
+		}
+	}()
+	res := types.NewResults(rs)
+	out = make([]string, len(res))
+	for i := range res {
+		bz, err := res[i].Marshal()
+		if err != nil {
+			panic(err)
+		}
+		out[i] = vg.Hx(bz)
+	}
+	return out
+}
+
+// CResults: nodes A and B apply the block (id, hdr) to st; their applications answered ra / rb
+func (c *c06Chain) resultsCase(cs *vg.Cases, id int, rr *vg.Rand, det bool, st State, blockID types.BlockID,
+	hdr *types.Header, end *abci.ResponseEndBlock, appHash []byte) {
+	ra := make([]*abci.ResponseDeliverTx, 1+rr.Intn(4))
+	for i := range ra {
+		ra[i] = c06GenResp(rr)
+	}
+	rb, kind := c06MutResps(rr, ra, det)
+	apply := func(rs []*abci.ResponseDeliverTx, wire bool) (State, uint64) {
+		resp := &tmstate.ABCIResponses{DeliverTxs: rs, BeginBlock: &abci.ResponseBeginBlock{}, EndBlock: end}
+		if wire {
+			bz, err := resp.Marshal()
+			if err != nil {
+				panic(err)
+			}
+			resp = new(tmstate.ABCIResponses)
+			if err := resp.Unmarshal(bz); err != nil {
+				panic(err)
+			}
+			if resp.EndBlock == nil {
+				resp.EndBlock = &abci.ResponseEndBlock{}
+			}
+		}
+		ns, class, _ := c06Apply(st, blockID, hdr, resp)
+		return ns, class
+	}
+	nsA, clA := apply(ra, false)
+	nsB, clB := apply(rb, true)
+	if clA != 0 || clB != 0 {
+		cs.Count("results-not-applicable", 1)
+		return
+	}
+	sameNext := bytes.Equal(nsA.Bytes(), nsB.Bytes())
+	// both applications computed the same application hash; node A proposes the next block
+	nsA.AppHash, nsB.AppHash = appHash, appHash
+	savedSt, savedR, savedSc := c.st, c.r, c.scenario
+	c.st, c.r = nsA, rr.Fork(1)
+	if c.scenario == 2 {
+		c.scenario = 0
+	}
+	cc := c.makeCommit(hdr.Height + 1)
+	c.st, c.r, c.scenario = savedSt, savedR, savedSc
+	proposer := nsA.Validators.Validators[rr.Intn(nsA.Validators.Size())].Address
+	next, _ := nsA.MakeBlock(hdr.Height+1, types.Txs{types.Tx(rr.Bytes(5))}, cc.c, nil, proposer)
+	accA, accB := c06Validate(nsA, next), c06Validate(nsB, next)
+	tb := c06NewIds()
+	group := "results-nondeterministic-fields-differ:"
+	if det {
+		group = "results-deterministic-field-differs:"
+	}
+	term := vg.App("CResults", c06RespL(ra), c06RespL(rb), vg.L(c06Leaves(ra)), vg.L(c06Leaves(rb)),
+		tb.hv(nsA.LastResultsHash), tb.hv(nsB.LastResultsHash), vg.B(sameNext), vg.N(accA), vg.N(accB))
+	cs.Add(id, group+kind, true, term, fmt.Sprintf("updateState(%s, blockID=%X/%d, header{h=%d time=%d}) on node A with DeliverTx responses %v and on node B with %v [B's application differs in: %s] -> LastResultsHash A=%X B=%X, same State.Bytes=%v; the block A proposes next (h=%d, LastResultsHash=%X): validateBlock class %d on A, %d on B",
+		c06StateDescr(st), []byte(blockID.Hash), blockID.PartSetHeader.Total, hdr.Height, c06Nano(hdr.Time), ra, rb, kind,
+		[]byte(nsA.LastResultsHash), []byte(nsB.LastResultsHash), sameNext, hdr.Height+1, []byte(next.LastResultsHash), accA, accB))
+}
+
 func TestVerifC06Chains(t *testing.T) {
 	cs := vg.NewCases("C06", "c06_chains", "TM.C06.Exec")
 	root := vg.NewRand(vg.Seed())
-	nchains := vg.Scale(9, 150)
+	nchains := vg.Scale(10, 150)
 	nheights := vg.Scale(5, 6)
 	perts := c06Perts()
 	for ci := 0; ci < nchains; ci++ {
@@ -806,8 +1177,14 @@ func TestVerifC06Chains(t *testing.T) {
 		if ci == 1 {
 			scenario = 2
 		}
+		if ci == 2 {
+			scenario = 3
+		}
 		c := c06Genesis(r, scenario)
 		for hi := 0; hi < nheights; hi++ {
+			if scenario == 3 && hi >= 3 {
+				break // large cases: the first block and two blocks with a full commit
+			}
 			st := c.st
 			height := st.LastBlockHeight + 1
 			if st.LastBlockHeight == 0 {
@@ -815,13 +1192,23 @@ func TestVerifC06Chains(t *testing.T) {
 			}
 			cc := c.makeCommit(height)
 			proposer := st.Validators.Validators[r.Intn(st.Validators.Size())].Address
-			full := r.Chance(50) || scenario == 1
+			full := r.Chance(50) || scenario == 1 || scenario == 3
 			pool := c06Pool(r, st.ConsensusParams.Block.MaxBytes, full)
 			nev := 0
-			if r.Chance(40) && scenario == 0 {
+			if r.Chance(40) && (scenario == 0 || scenario == 3) {
 				nev = 1 + r.Intn(3)
 			}
 			evs := c.evidence(height, nev)
+			// half of the full mempools hold exactly as many bytes as CreateProposalBlock asks for
+			exact := full && (scenario == 3 || r.Chance(50))
+			if exact {
+				probe := c06Propose(st, height, cc.c, proposer, nil, evs)
+				if !probe.paniced && probe.asked > 0 {
+					pool = c06ExactPool(r, probe.asked)
+				} else {
+					exact = false
+				}
+			}
 			prop := c06Propose(st, height, cc.c, proposer, pool, evs)
 
 			// ---- CPropose
@@ -837,6 +1224,9 @@ func TestVerifC06Chains(t *testing.T) {
 				kind := "propose"
 				if full {
 					kind = "propose-full-mempool"
+				}
+				if exact {
+					kind = "propose-mempool-exactly-at-budget"
 				}
 				if scenario != 0 {
 					kind = fmt.Sprintf("propose-directed-%d", scenario)
@@ -855,6 +1245,9 @@ func TestVerifC06Chains(t *testing.T) {
 			allPerts := hi < 2 || vg.Thorough()
 			for pi, p := range perts {
 				id := cs.NextID()
+				if scenario == 3 && pi != 0 {
+					continue
+				}
 				if !allPerts && pi != 0 && !r.Chance(25) {
 					continue
 				}
@@ -977,7 +1370,18 @@ func TestVerifC06Chains(t *testing.T) {
 					t.Fatalf("cannot continue chain %d at height %d", ci, height)
 				}
 			}
+			// ---- CResults: a second node whose application answers differently
+			for vi := 0; vi < 2; vi++ {
+				id := cs.NextID()
+				if cs.Want(id) {
+					c.resultsCase(cs, id, r.Fork(uint64(880000+hi*2+vi)), vi == 1, st, blockID, &b.Header, resp.EndBlock, step.appHash)
+				}
+			}
 			nsA.AppHash = step.appHash
+			if scenario == 3 {
+				// a block of the maximal number of parts
+				nsA.LastBlockID.PartSetHeader.Total = math.MaxUint32
+			}
 			c.st = nsA
 		}
 	}
